@@ -11,6 +11,7 @@ Oracle: float64 brute-force lattice search (vlib.refmodels.mic via geom_common.m
 coordinates and cell vectors actually stored in the trajectory.
 """
 import collections
+import itertools
 
 import numpy as np
 
@@ -63,10 +64,6 @@ def _base(i, V):
     return 7 * V[0] - 5 * V[2]
 
 
-def _menu():
-    return {c["name"]: c for c in grids.cell_menu(quick=False)}
-
-
 class Acc:
     def __init__(self, spec):
         self.spec = spec
@@ -109,45 +106,149 @@ class Acc:
                 check, err[b], tol[b], ratio[b], where, len(bad), err.size, describe(where)))
 
 
-def _setup(spec):
+def _cell(name, L, A, unreduced=False):
+    v = grids.lengths_angles_to_vectors(*L, *A)
+    if not unreduced:
+        return dict(name=name, vectors=v, lengths=np.array(L, float), angles=np.array(A, float), reduced=True,
+                    ortho=all(abs(x - 90) < 1e-9 for x in A))
+    u = v.copy()
+    u[1] = v[1] + v[0]
+    u[2] = v[2] + v[0] - v[1]
+    Lu, Au = grids.vectors_to_lengths_angles(u)
+    return dict(name=name, vectors=u, lengths=Lu, angles=Au, reduced=False, ortho=False)
+
+
+def _menu():
+    m = {c["name"]: c for c in grids.cell_menu(quick=False)}
+    # strongly skewed cells whose shortest lattice vector (a-b resp. a+b) is shorter than every cell edge
+    m["g45"] = _cell("g45", (2.0, 2.0, 2.0), (90, 90, 45))
+    m["g45+unreduced"] = _cell("g45+unreduced", (2.0, 2.0, 2.0), (90, 90, 45), unreduced=True)
+    m["g135"] = _cell("g135", (2.0, 2.0, 2.0), (90, 90, 135))
+    m["g135+unreduced"] = _cell("g135+unreduced", (2.0, 2.0, 2.0), (90, 90, 135), unreduced=True)
+    # orthorhombic cells of an all-orthorhombic stack in which consecutive frames share one or two edge lengths exactly
+    for nm, L in ORTHO_SHARED.items():
+        m[nm] = _cell(nm, L, (90, 90, 90))
+    return m
+
+
+ORTHO_SHARED = {"o234": (2.0, 3.0, 4.0), "o2_36_44": (2.0, 3.6, 4.4), "o25_3_45": (2.5, 3.0, 4.5), "o26_33_4": (2.6, 3.3, 4.0),
+                "o2_3_47": (2.0, 3.0, 4.7), "o2_35_4": (2.0, 3.5, 4.0), "o27_3_4": (2.7, 3.0, 4.0)}
+# X, Y, X for every Y sharing a / b / c / ab / ac / bc with X = o234: every class in both orders, consecutive frames
+STACKS["stack_ortho_shared"] = [n for y in ("o2_36_44", "o25_3_45", "o26_33_4", "o2_3_47", "o2_35_4", "o27_3_4")
+                                for n in ("o234", y, "o234")]
+EXTRA_SKEW = ["g45", "g45+unreduced", "g135", "g135+unreduced"]
+SHORT_DIAGONAL = ["tric_45_60_75", "tric_45_60_75+unreduced", "tric_135_100_110", "tric_135_100_110+unreduced"]
+BLOCK_SIZES = [1, 2, 3, 4, 5, 7, 8, 9, 255, 256, 257, 300, 511, 512, 513, 767, 768, 1000, 1024, 1025]
+
+
+def _cell_kw(spec, cells, F):
+    names = spec["cells"]
+    if names is None:
+        return {}, "nocell"
+    if len(names) == 1 and cells[0]["reduced"]:
+        kw = dict(lengths=np.array([cells[0]["lengths"]] * F), angles=np.array([cells[0]["angles"]] * F))
+        return kw, ("ortho" if cells[0]["ortho"] else "skew-reduced")
+    kw = dict(vectors=np.array([c["vectors"] for c in cells], dtype=np.float32))
+    return kw, ("skew-unreduced" if len(names) == 1 else spec["name"].replace("_", "-"))
+
+
+def _setup_grid(spec):
     menu = _menu()
     G = grids.frac_grid(step=spec["step"])
     K = len(G)
     J = grids.jitter(K, 3, scale=JIT_SCALE, seed=spec["seed"]) if spec["mode"] == "jit" else np.zeros((K, 3))
     names = spec["cells"] or ["cubic3"]
     cells = [menu[n] for n in (names * 3 if len(names) == 1 else names)]
-    xyz = np.empty((3, K + 1, 3))
-    for f in range(3):
+    F = len(cells)
+    xyz = np.empty((F, K + 1, 3))
+    for f in range(F):
         V = cells[f]["vectors"]
         b = _base((f + spec["rot"]) % 3, V)
         xyz[f, 0] = b
         xyz[f, 1:] = b + (G + J) @ V
-    xyz32 = xyz.astype(np.float32)
-    if spec["cells"] is None:
-        kw, kind = {}, "nocell"
-    elif len(names) == 1 and cells[0]["reduced"]:
-        kw = dict(lengths=np.array([cells[0]["lengths"]] * 3), angles=np.array([cells[0]["angles"]] * 3))
-        kind = "ortho" if cells[0]["ortho"] else "skew-reduced"
-    else:
-        kw = dict(vectors=np.array([c["vectors"] for c in cells], dtype=np.float32))
-        kind = "skew-unreduced" if len(names) == 1 else spec["name"].replace("_", "-")
-    return G, J, cells, xyz32, kw, kind
-
-
-def _pairs(K):
+    kw, kind = _cell_kw(spec, cells, F)
     P1 = [(0, j) for j in range(1, K + 1)]
     P2 = [(j, 0) for j in range(1, K + 1, 7)]
     P3 = [(j, K + 1 - j) for j in range(1, K + 1, 5)]
     P4 = [(3, 3), (0, 0)]
     P5 = [(0, 2), (0, 2)]
-    return np.array(P1 + P2 + P3 + P4 + P5, dtype=np.int32), len(P1), len(P2)
+    pairs = np.array(P1 + P2 + P3 + P4 + P5, dtype=np.int32)
+    n1 = len(P1)
+    groups = [("one-vs-class%d" % m, np.array([0]), np.arange(1 + m, K + 1, CC_M)) for m in range(CC_M)]
+    groups.append(("class0-vs-one", np.arange(1, K + 1, CC_M), np.array([0])))
+    for m in range(3):
+        g1 = np.array([1 + m + k * (K // 5) for k in range(5)])
+        g2 = np.setdiff1d(np.arange(1 + (m + 3) % CC_M, K + 1, CC_M), g1)
+        groups.append(("five-vs-class%d" % ((m + 3) % CC_M), g1, g2))
+    fr = G + J
+    return dict(cells=cells, xyz32=xyz.astype(np.float32), kw=kw, kind=kind, pairs=pairs, n1=n1,
+                rev=(np.arange(0, n1, 7), np.arange(n1, n1 + len(P2))), rep=(len(pairs) - 1, len(pairs) - 2),
+                groups=groups, cc_frames=list(range(F)), frac=lambda f, j: fr[j].tolist() if j < K else None,
+                blocks=True)
+
+
+def _setup_compact(spec):
+    """Trajectories in which EVERY frame holds one compact atom group (2 atoms, or a 4-atom cluster strung along the
+    pair): bounding-box diagonal below half the shortest cell edge.  Frames = all fractional-grid displacements
+    (step 1/4 in [-1,1]^3) that are that short, plus, for every lattice vector v = n.V (n in {-2..2}^3) shorter than the
+    shortest edge, the displacements s*v (s = 0.51, 0.53, .. 0.97, slightly off-axis) that are that short: those have
+    the closer image s*v - v (strongly skewed and unreduced cells)."""
+    menu = _menu()
+    c = menu[spec["cells"][0]]
+    V = c["vectors"]
+    G = grids.frac_grid(-1.0, 1.0, 0.25)
+    edge0 = np.linalg.norm(V, axis=1).min()
+    nn = np.array(list(itertools.product(range(-2, 3), repeat=3)), dtype=np.float64)
+    lv = nn @ V
+    ln = np.linalg.norm(lv, axis=1)
+    short = nn[(ln > 1e-9) & (ln < 0.999 * edge0)]
+    if len(short):
+        ss = np.arange(0.51, 0.98, 0.02)
+        G = np.vstack([G, (ss[:, None, None] * short[None, :, :]).reshape(-1, 3) + 0.013])
+    J = grids.jitter(len(G), 3, scale=JIT_SCALE, seed=spec["seed"]) if spec["mode"] == "jit" else np.zeros((len(G), 3))
+    d = (G + J) @ V
+    edge = np.linalg.norm(V, axis=1).min()
+    n = np.linalg.norm(d, axis=1)
+    if spec["shape"] == "pair":
+        keep = (n > 1e-6) & (n < 0.499 * edge)
+        d, fr = d[keep], (G + J)[keep]
+        F = len(d)
+        xyz = np.zeros((F, 2, 3))
+        xyz[:, 1] = d
+        pairs = np.array([(0, 1), (1, 0), (0, 0), (0, 1)], dtype=np.int32)
+        n1, rev, rep = 1, (np.array([0]), np.array([1])), (3, 0)
+        groups = [("0-vs-1", np.array([0]), np.array([1])), ("1-vs-0", np.array([1]), np.array([0]))]
+    else:
+        off = grids.jitter(2 * len(G), 3, scale=0.04, seed=spec["seed"] + 5).reshape(len(G), 2, 3)
+        xyz = np.zeros((len(G), 4, 3))
+        xyz[:, 1] = d
+        xyz[:, 2] = 0.5 * d + off[:, 0] * n[:, None]
+        xyz[:, 3] = 0.25 * d + off[:, 1] * n[:, None]
+        diag = np.linalg.norm(xyz.max(axis=1) - xyz.min(axis=1), axis=1)
+        keep = (n > 1e-6) & (diag < 0.499 * edge)
+        xyz, fr = xyz[keep], (G + J)[keep]
+        F = len(xyz)
+        pairs = np.array([(0, 1), (0, 2), (0, 3), (1, 2), (1, 3), (2, 3), (1, 0), (3, 1), (2, 2), (0, 1)], dtype=np.int32)
+        n1, rev, rep = 6, (np.array([0, 4]), np.array([6, 7])), (9, 0)
+        groups = [("02-vs-13", np.array([0, 2]), np.array([1, 3])), ("1-vs-023", np.array([1]), np.array([0, 2, 3]))]
+    for f in range(F):
+        xyz[f] += _base(f % 3, V)
+    cells = [c] * F
+    kw, kind = _cell_kw(spec, cells, F)
+    return dict(cells=cells, xyz32=xyz.astype(np.float32), kw=kw, kind=kind + "|compact-" + spec["shape"], pairs=pairs, n1=n1,
+                rev=rev, rep=rep, groups=groups, cc_frames=list(range(0, F, max(1, F // 24))),
+                frac=lambda f, j: fr[f].tolist(), blocks=False)
 
 
 def _job(spec):
+    su = _setup_compact(spec) if spec.get("type") == "compact" else _setup_grid(spec)
+    return _evaluate(spec, **su)
+
+
+def _evaluate(spec, cells, xyz32, kw, kind, pairs, n1, rev, rep, groups, cc_frames, frac, blocks):
     import mdtraj as md
     from mdtraj.geometry.distance import compute_distances_core
-    G, J, cells, xyz32, kw, kind = _setup(spec)
-    K = len(G)
+    F, N = xyz32.shape[:2]
     acc = Acc(spec)
     x64 = xyz32.astype(np.float64)
     mk = lambda: gc.make_traj(xyz32, **kw)
@@ -155,12 +256,24 @@ def _job(spec):
     have_cell = t0.unitcell_vectors is not None
     Vst = t0.unitcell_vectors.astype(np.float64) if have_cell else None      # the cell as stored (float32 values)
     ortho = [bool(c["ortho"]) for c in cells]
-    varying = have_cell and len(spec["cells"]) == 3
-    pairs, n1, n2 = _pairs(K)
+    varying = have_cell and len(spec["cells"]) > 1
     NP = len(pairs)
     p0, p1 = pairs[:, 0], pairs[:, 1]
     empty = np.zeros((0, 2), dtype=np.int32)
-    times = np.array([(a, b) for a in range(3) for b in range(3)], dtype=np.int32)
+    times = np.array([(f, (f + k) % F) for f in range(F) for k in range(min(F, 2 if spec.get("type") == "compact" else 3))],
+                     dtype=np.int32)
+    NT = len(times)
+
+    def mimg(rr, fidx):
+        """min image of rr[i] (i over frames / time pairs) in the cell of frame fidx[i]; one call when the cell is constant."""
+        if not varying:
+            m = gc.min_image(rr, Vst[0])
+            return m["d"], m["n"]
+        ms = [gc.min_image(rr[i], Vst[fidx[i]]) for i in range(len(rr))]
+        return np.array([m["d"] for m in ms]), np.array([m["n"] for m in ms])
+
+    def tolp(rr, fidx):
+        return gc.tol_disp(rr, Vst[np.asarray(fidx)][:, None])
 
     def desc(f, V):
         def d(where):
@@ -173,25 +286,30 @@ def _job(spec):
         return d
 
     # ---- oracle per frame --------------------------------------------------------------------
-    r = x64[:, p1] - x64[:, p0]                                   # (3, NP, 3) plain differences r2 - r1
+    r = x64[:, p1] - x64[:, p0]                                   # (F, NP, 3) plain differences r2 - r1
     eucl = np.linalg.norm(r, axis=-1)
     tolE = gc.tol_disp(r)
     if have_cell:
-        mi = [gc.min_image(r[f], Vst[f]) for f in range(3)]
-        dstar = np.array([m["d"] for m in mi])
-        nstar = np.array([m["n"] for m in mi])
-        tolP = np.array([gc.tol_disp(r[f], Vst[f][None]) for f in range(3)])
-        hw = np.array([0.5 * grids.cell_widths(Vst[f]).min() for f in range(3)])
-        indom = np.array([np.ones(NP, bool) if ortho[f] else dstar[f] < hw[f] for f in range(3)])
+        dstar, nstar = mimg(r, np.arange(F))
+        tolP = tolp(r, np.arange(F))
+        hw = np.array([0.5 * grids.cell_widths(Vst[f]).min() for f in range(F)])
+        indom = np.array([np.ones(NP, bool) if ortho[f] else dstar[f] < hw[f] for f in range(F)])
         acc.n["pairs_in_domain"] += int(indom[:, :n1].sum())
         acc.n["pairs_beyond_domain"] += int((~indom[:, :n1]).sum())
         nontriv = np.any(nstar != 0, axis=-1)                    # the min image is not the plain difference
+        if spec.get("type") == "compact":
+            acc.n["compact_frames"] += F
+            acc.n["compact_pairs_with_a_closer_image_in_domain"] += int((nontriv & indom)[:, :n1].sum())
     else:
-        nontriv = np.zeros((3, NP), bool)
+        nontriv = np.zeros((F, NP), bool)
     # distinct non-trivial inputs: distinct (r1, r2, frame-cell) float32 triples whose minimum image needs a shift
     key = np.concatenate([xyz32[:, p0], xyz32[:, p1]], axis=-1)
-    acc.n["distinct_nontrivial"] += sum(len(np.unique(key[f][nontriv[f]], axis=0)) for f in range(3))
-    acc.n["distinct_inputs"] += sum(len(np.unique(key[f], axis=0)) for f in range(3))
+    if varying or spec.get("type") == "compact":
+        acc.n["distinct_nontrivial"] += sum(len(np.unique(key[f][nontriv[f]], axis=0)) for f in range(F))
+        acc.n["distinct_inputs"] += sum(len(np.unique(key[f], axis=0)) for f in range(F))
+    else:
+        acc.n["distinct_nontrivial"] += len(np.unique(key[nontriv], axis=0))
+        acc.n["distinct_inputs"] += len(np.unique(key.reshape(-1, 6), axis=0))
 
     out = {}
     mutated = 0
@@ -209,7 +327,7 @@ def _job(spec):
             sub = pairs if opt else pairs[:64]
             Dc = np.asarray(compute_distances_core(xyz32.copy(), sub, unitcell_vectors=vin, periodic=periodic, opt=opt))
             acc.n["evaluations"] += int(Dc.size)
-            if Dc.shape != (3, len(sub)) or not np.array_equal(Dc, D[:, :len(sub)]):
+            if Dc.shape != (F, len(sub)) or not np.array_equal(Dc, D[:, :len(sub)]):
                 acc.add("distances_core|%s|differs-from-compute_distances" % tag, "compute_distances_core on traj.xyz / "
                         "traj.unitcell_vectors differs from compute_distances")
             if have_cell and not np.array_equal(vin, t0.unitcell_vectors):
@@ -218,21 +336,39 @@ def _job(spec):
             DT = np.asarray(md.compute_distances_t(t, pairs, times, periodic=periodic, opt=opt))
             out[(periodic, opt)] = (D, X, DT)
             # shapes, pair-list shapes
-            for nm, got, want in (("distances", D.shape, (3, NP)), ("displacements", X.shape, (3, NP, 3)),
-                                  ("distances_t", DT.shape, (9, NP))):
+            for nm, got, want in (("distances", D.shape, (F, NP)), ("displacements", X.shape, (F, NP, 3)),
+                                  ("distances_t", DT.shape, (NT, NP))):
                 acc.n["evaluations"] += 1
                 if got != want:
                     acc.add("%s|%s|shape" % (nm, tag), "shape %s, documented %s" % (got, want))
-            for nm, fn, want in (("distances", lambda: md.compute_distances(mk(), empty, periodic=periodic, opt=opt), (3, 0)),
-                                 ("displacements", lambda: md.compute_displacements(mk(), empty, periodic=periodic, opt=opt), (3, 0, 3)),
-                                 ("distances_t", lambda: md.compute_distances_t(mk(), empty, times, periodic=periodic, opt=opt), (9, 0))):
+            for nm, fn, want in (("distances", lambda: md.compute_distances(mk(), empty, periodic=periodic, opt=opt), (F, 0)),
+                                 ("displacements", lambda: md.compute_displacements(mk(), empty, periodic=periodic, opt=opt), (F, 0, 3)),
+                                 ("distances_t", lambda: md.compute_distances_t(mk(), empty, times, periodic=periodic, opt=opt), (NT, 0))):
                 acc.n["evaluations"] += 1
                 got = np.asarray(fn()).shape
                 if got != want:
                     acc.add("%s|empty-pairs|shape" % nm, "empty pair list, %d frames, %d time pairs: shape %s, documented %s"
-                            % (3, len(times), got, want))
-            if D.shape != (3, NP) or X.shape != (3, NP, 3) or DT.shape != (9, NP):
+                            % (F, NT, got, want))
+            if D.shape != (F, NP) or X.shape != (F, NP, 3) or DT.shape != (NT, NP):
                 continue
+            # pair-list length classes (SIMD remainders, block sizes): a sub-list gives the same rows as the full list
+            if blocks and (opt or True):
+                for m in BLOCK_SIZES:
+                    if m > NP or (not opt and m > 9):
+                        continue
+                    s0 = (NP - m) // 3
+                    sl = pairs[s0:s0 + m]
+                    Db = np.asarray(md.compute_distances(mk(), sl, periodic=periodic, opt=opt))
+                    Xb = np.asarray(md.compute_displacements(mk(), sl, periodic=periodic, opt=opt))
+                    Tb = np.asarray(md.compute_distances_t(mk(), sl, times, periodic=periodic, opt=opt))
+                    acc.n["evaluations"] += int(Db.size + Xb.size + Tb.size)
+                    acc.n["pair_list_length_classes"] += 1
+                    for nm, got, full in (("distances", Db, D[:, s0:s0 + m]), ("displacements", Xb, X[:, s0:s0 + m]),
+                                          ("distances_t", Tb, DT[:, s0:s0 + m])):
+                        if got.shape != full.shape or not np.array_equal(got, full):
+                            acc.add("%s|%s|sublist-differs-from-full-list" % (nm, tag), "pairs[%d:%d] (%d pairs, %d frames) gives "
+                                    "other values than the same rows of the full %d-pair call; job=%s"
+                                    % (s0, s0 + m, m, F, NP, spec["name"]))
             D = D.astype(np.float64)
             X = X.astype(np.float64)
             DT = DT.astype(np.float64)
@@ -242,9 +378,8 @@ def _job(spec):
             acc.cmp("dist=|disp|", "distances|%s|norm-of-displacement" % tag, np.abs(D - lenX), tol, desc(None, None))
             # repeated pair rows identical (pairs (i,i) are judged like every other pair: d* = 0 within the error model)
             acc.n["evaluations"] += 1
-            if not (np.array_equal(D[:, -1], D[:, -2]) and np.array_equal(X[:, -1], X[:, -2])):
+            if not (np.array_equal(D[:, rep[0]], D[:, rep[1]]) and np.array_equal(X[:, rep[0]], X[:, rep[1]])):
                 acc.add("distances|%s|repeated-pair" % tag, "repeated pair gives different rows")
-            acc.ratio["i==j-abs-distance"] = max(acc.ratio["i==j-abs-distance"], float(np.abs(D[:, -4:-2]).max()))
             if not per:
                 # (g) plain Euclid, documented sign r2 - r1
                 acc.cmp("euclid-dist", "distances|%s|euclid" % tag, np.abs(D - eucl), tolE, desc(None, None))
@@ -266,45 +401,42 @@ def _job(spec):
                 acc.n["beyond_domain_equal_dstar"] += int((np.abs(D - dstar) <= tol)[beyond].sum())
                 acc.n["beyond_domain_larger"] += int((np.abs(D - dstar) > tol)[beyond].sum())
                 # reversed pairs: same length, negated vector unless an image tie was resolved the other way
-                jj = np.arange(0, n1, 7)
-                rev = slice(n1, n1 + n2)
-                acc.cmp("reversed-dist", "distances|%s|reversed-pair" % tag, np.abs(D[:, rev] - D[:, jj]), 2 * tol[:, jj], desc(None, None), jmap=jj)
-                s = X[:, rev] + X[:, jj]
+                jj, rv = rev
+                acc.cmp("reversed-dist", "distances|%s|reversed-pair" % tag, np.abs(D[:, rv] - D[:, jj]), 2 * tol[:, jj], desc(None, None), jmap=jj)
+                s = X[:, rv] + X[:, jj]
                 tie = np.abs(s).max(-1) > 2 * tol[:, jj]
                 acc.n["reversed_pair_tie_other_image"] += int(tie.sum())
             # ---- compute_distances_t ---------------------------------------------------------
-            rt = x64[times[:, 1]][:, p1] - x64[times[:, 0]][:, p0]          # (9, NP, 3)
+            rt = x64[times[:, 1]][:, p1] - x64[times[:, 0]][:, p0]          # (NT, NP, 3)
             if not per:
                 acc.cmp("t-euclid", "distances_t|%s|euclid" % tag, np.abs(DT - np.linalg.norm(rt, axis=-1)), gc.tol_disp(rt), desc("t", None))
             else:
                 best = None
                 for which in ((0, 1) if varying else (0,)):
                     fc = times[:, which]
-                    mt = [gc.min_image(rt[i], Vst[fc[i]]) for i in range(9)]
-                    ds = np.array([m["d"] for m in mt])
-                    tl = np.array([gc.tol_disp(rt[i], Vst[fc[i]][None]) for i in range(9)])
-                    dom = np.array([np.ones(NP, bool) if ortho[fc[i]] else ds[i] < hw[fc[i]] for i in range(9)])
+                    ds, ns = mimg(rt, fc)
+                    tl = tolp(rt, fc)
+                    dom = np.array([np.ones(NP, bool) if ortho[fc[i]] else ds[i] < hw[fc[i]] for i in range(NT)])
                     e_eq = np.where(dom, np.abs(DT - ds), 0.0) / tl
                     e_lo = np.maximum(ds - DT, 0) / tl
                     e = np.maximum(e_eq, e_lo)
                     best = e if best is None else np.minimum(best, e)
                     if which == 0:
                         acc.n["t_pairs_in_domain"] += int(dom.sum())
-                        acc.n["t_distinct_nontrivial"] += int(np.any(np.array([m["n"] for m in mt]) != 0, axis=-1).sum())
+                        acc.n["t_distinct_nontrivial"] += int(np.any(ns != 0, axis=-1).sum())
                 acc.cmp("t-min-image", "distances_t|%s|not-minimum-image" % tag, best, 1.0, desc("t", None))
             # (f) _t == static call on re-stacked frames (optimised path; the reference-path _t values are tied to
             # it through opt == ref below and to the oracle above)
             if not opt:
                 continue
-            N = K + 1
-            xr = np.concatenate([xyz32[times[:, 0]], xyz32[times[:, 1]]], axis=1)     # (9, 2N, 3)
+            xr = np.concatenate([xyz32[times[:, 0]], xyz32[times[:, 1]]], axis=1)     # (NT, 2N, 3)
             pr = np.stack([p0, p1 + N], axis=1).astype(np.int32)
             bestf = None
             for which in ((0, 1) if (varying and per) else (0,)):
                 vr = None if not have_cell else t0.unitcell_vectors[times[:, which]]
                 tr = gc.make_traj(xr, vectors=vr)
                 DS = np.asarray(md.compute_distances(tr, pr, periodic=periodic, opt=opt)).astype(np.float64)
-                tl = (np.array([gc.tol_disp(rt[i], Vst[times[i, which]][None]) for i in range(9)]) if per else gc.tol_disp(rt))
+                tl = tolp(rt, times[:, which]) if per else gc.tol_disp(rt)
                 e = np.abs(DT - DS)
                 with np.errstate(divide="ignore", invalid="ignore"):
                     e = np.where(tl > 0, e / np.where(tl > 0, 2 * tl, 1), np.where(e > 0, np.inf, 0))
@@ -314,7 +446,7 @@ def _job(spec):
             acc.cmp("t=static", "distances_t|%s|differs-from-static-restack" % tag, bestf, 1.0, desc("t", None))
         # (e) optimised == reference path
         (Do, Xo, DTo), (Dn, Xn, DTn) = out[(periodic, True)], out[(periodic, False)]
-        if Do.shape == Dn.shape and Xo.shape == Xn.shape and DTo.shape == DTn.shape and Do.shape == (3, NP):
+        if Do.shape == Dn.shape and Xo.shape == Xn.shape and DTo.shape == DTn.shape and Do.shape == (F, NP):
             tag = "%s|%s" % (kind, "periodic" if periodic else "nonperiodic")
             tol = tolP if per else tolE
             acc.cmp("opt=ref-dist", "distances|%s|opt-vs-ref" % tag, np.abs(Do.astype(float) - Dn), 2 * tol, desc(None, None))
@@ -332,18 +464,12 @@ def _job(spec):
             else:
                 acc.cmp("opt=ref-disp", "displacements|%s|opt-vs-ref" % tag, dv, 2 * tol, desc(None, None))
             rt = x64[times[:, 1]][:, p1] - x64[times[:, 0]][:, p0]
-            tlt = (np.array([gc.tol_disp(rt[i], Vst[times[i, 0]][None]) for i in range(9)]) if per else gc.tol_disp(rt))
+            tlt = tolp(rt, times[:, 0]) if per else gc.tol_disp(rt)
             acc.cmp("opt=ref-t", "distances_t|%s|opt-vs-ref" % tag, np.abs(DTo.astype(float) - DTn), 2 * tlt, desc("t", None))
         # ---- find_closest_contact -----------------------------------------------------------
         tag = "%s|%s" % (kind, "periodic" if periodic else "nonperiodic")
         t = mk()
-        groups = [("one-vs-class%d" % m, np.array([0]), np.arange(1 + m, K + 1, CC_M)) for m in range(CC_M)]
-        groups.append(("class0-vs-one", np.arange(1, K + 1, CC_M), np.array([0])))
-        for m in range(3):
-            g1 = np.array([1 + m + k * (K // 5) for k in range(5)])
-            g2 = np.setdiff1d(np.arange(1 + (m + 3) % CC_M, K + 1, CC_M), g1)
-            groups.append(("five-vs-class%d" % ((m + 3) % CC_M), g1, g2))
-        for f in range(3):
+        for f in cc_frames:
             for label, g1, g2 in groups:
                 g1 = g1.astype(np.int32)
                 g2 = g2.astype(np.int32)
@@ -385,23 +511,25 @@ def _job(spec):
     acc.n["core_calls_that_rewrote_callers_unitcell_vectors"] += mutated
     # samples
     samples = []
-    for f, j in ((0, 0), (1, n1 // 2), (2, n1 - 1)):
+    for f, j in ((0, 0), (F // 2, n1 // 2), (F - 1, n1 - 1)):
         D = out[(True, True)][0]
-        samples.append({"job": spec["name"], "mode": spec["mode"], "base": BASE_NAMES[(f + spec["rot"]) % 3],
-                        "cell_vectors": None if Vst is None else Vst[f].tolist(), "frac_displacement": (G[j] + J[j]).tolist(),
-                        "r1": xyz32[f, 0].tolist(), "r2": xyz32[f, j + 1].tolist(),
+        samples.append({"job": spec["name"], "mode": spec["mode"], "base": BASE_NAMES[(f + spec.get("rot", 0)) % 3],
+                        "cell_vectors": None if Vst is None else Vst[f].tolist(), "frac_displacement": frac(f, j),
+                        "r1": xyz32[f, p0[j]].tolist(), "r2": xyz32[f, p1[j]].tolist(),
                         "oracle_dstar": float(dstar[f, j]) if have_cell else float(eucl[f, j]),
                         "oracle_shift_n": nstar[f, j].tolist() if have_cell else None,
-                        "compute_distances": float(D[f, j]) if D.shape == (3, NP) else None})
+                        "compute_distances": float(D[f, j]) if D.shape == (F, NP) else None})
     viol = [v for lst in acc.viol.values() for v in lst]
     return {"name": spec["name"], "mode": spec["mode"], "kind": kind, "n": dict(acc.n), "ratio": dict(acc.ratio),
-            "viol": viol, "samples": samples, "K": K, "NP": NP}
+            "viol": viol, "samples": samples, "K": N - 1, "NP": NP, "F": F, "type": spec.get("type", "grid")}
 
 
 def _jobs(ctx):
     quick = ctx.quick
     step = 0.5 if quick else 0.25
-    names = [c["name"] for c in grids.cell_menu(quick=quick)]
+    names = [c["name"] for c in grids.cell_menu(quick=quick)] + (["g45", "g135"] if quick else EXTRA_SKEW)
+    menu = _menu()
+    compact = [n for n in names if not menu[n]["ortho"]] + [n for n in EXTRA_SKEW + SHORT_DIAGONAL if n not in names] + ["ortho234"]
     jobs = []
     for mode in ("exact", "jit"):
         for n in names:
@@ -410,19 +538,22 @@ def _jobs(ctx):
             for rot in range(1 if quick else 3):
                 jobs.append(dict(name="%s/rot%d" % (sn, rot), cells=list(lst), rot=rot, mode=mode, step=step, seed=ctx.seed))
         jobs.append(dict(name="nocell", cells=None, rot=0, mode=mode, step=step, seed=ctx.seed))
-    return jobs, names
+        for n in compact:
+            for shape in ("pair", "cluster"):
+                jobs.append(dict(type="compact", name="compact-%s/%s" % (shape, n), cells=[n], shape=shape, mode=mode, seed=ctx.seed))
+    return jobs, names, compact
 
 
 def _cost(j):
     menu = _menu()
-    if j["cells"] is None:
+    if j["cells"] is None or j.get("type") == "compact":
         return 0
-    return sum(0 if menu[c]["ortho"] else 1 for c in j["cells"]) * (3 if len(j["cells"]) == 1 else 1)
+    return sum(0.2 if menu[c]["ortho"] else 1 for c in j["cells"]) * (3 if len(j["cells"]) == 1 else 1)
 
 
 def run(ctx):
     import mdtraj  # noqa: F401  (imported before fork)
-    jobs, names = _jobs(ctx)
+    jobs, names, compact = _jobs(ctx)
     order = sorted(range(len(jobs)), key=lambda i: -_cost(jobs[i]))        # longest first
     res = ctx.pmap(_job, [jobs[i] for i in order])
     res = [r for _, r in sorted(zip(order, res), key=lambda p: p[0])]
@@ -454,7 +585,11 @@ def run(ctx):
         "jobs": len(jobs),
         "axes": {"cells": names, "stacks": STACKS, "bases": BASE_NAMES, "modes": ["exact", "jit"],
                  "grid_step": jobs[0]["step"], "grid_points_per_base": res[0]["K"], "pairs_per_frame": res[0]["NP"],
-                 "opt": [True, False], "periodic": [True, False], "time_pairs": 9,
+                 "opt": [True, False], "periodic": [True, False],
+                 "time_pairs": "(f, f), (f, f+1), (f, f+2) mod n_frames for every frame f (all 9 pairs for 3 frames; compact jobs: "
+                               "(f, f), (f, f+1))",
+                 "compact_cells": compact, "compact_shapes": ["pair (2 atoms per frame)", "cluster (4 atoms per frame)"],
+                 "pair_list_length_classes": BLOCK_SIZES,
                  "functions": ["compute_distances", "compute_displacements", "compute_distances_t", "find_closest_contact"]},
         "distinct_inputs": int(tot["distinct_inputs"]),
         "pairs_in_minimum_image_domain": int(tot["pairs_in_domain"]),
@@ -463,6 +598,9 @@ def run(ctx):
         "beyond_domain_values_larger_than_dstar": int(tot["beyond_domain_larger"]),
         "t_pairs_in_domain": int(tot["t_pairs_in_domain"]),
         "t_distinct_nontrivial": int(tot["t_distinct_nontrivial"]),
+        "compact_group_frames": int(tot["compact_frames"]),
+        "compact_pairs_with_a_closer_image_in_domain": int(tot["compact_pairs_with_a_closer_image_in_domain"]),
+        "pair_sublist_calls_compared_with_full_list": int(tot["pair_list_length_classes"]),
         "closest_contact_calls": int(tot["closest_contact_calls"]),
         "closest_contact_beyond_domain_only_lower_bound_judged": int(tot["closest_contact_beyond_domain"]),
         "excluded_within_margin": {"opt_vs_ref_displacement_other_equally_long_image": int(tot["opt_ref_tie_other_image"]),
